@@ -343,4 +343,31 @@ pub fn worker(ctx: &Ctx, res: &mut ShardResult) {
     }
 }
 
-pub fn replay(case: &Value) -> Vec<String> { vec![format!("rerun ./vf check C11 quick (case {})", case)] }
+/// Re-run every cursor configuration of one recorded (language, query, text) outside the explorer.
+pub fn replay(case: &Value) -> Vec<String> {
+    let case = if case.get("kind").and_then(|k| k.as_str()) == Some("crash") { &case["case"] } else { case };
+    let (Some(lname), Some(qsrc)) = (case["lang"].as_str(), case["query"].as_str()) else { return vec![format!("not a C11 case: {}", case)] };
+    let Some(z) = crate::zoo::by_name(lname) else { return vec![format!("unknown language {}", lname)] };
+    let info = build_info(&z);
+    let text = crate::util::bytes_from_json(&case["text"]);
+    let mut parser = Parser::new();
+    parser.set_language(&info.language).unwrap();
+    let tree = parser.parse(&text, None).unwrap();
+    println!("tree: {}", tree.root_node().to_sexp());
+    let xt = XTree::build(&tree);
+    let env = Env::new(&tree, &text, &xt);
+    let mut res = ShardResult::new();
+    res.max_violations = 20;
+    let ctx = Ctx { id: "C11".into(), tier: "thorough".into(), seed: 0, shard: 0, nshards: 1, deadline: std::time::Instant::now() + std::time::Duration::from_secs(600) };
+    if qsrc == "predicates" || qsrc.contains("(#") {
+        check_predicates(lname, &info.language, &env, &mut res);
+        if qsrc != "predicates" { res.violations.retain(|v| v.what.contains(qsrc)); }
+    } else {
+        let q = match Query::new(&info.language, qsrc) { Ok(q) => q, Err(e) => return vec![format!("query rejected: {:?}", e)] };
+        let other = Query::new(&info.language, if lname == "stmts" { "(number) @n (identifier) @i" } else { "(number) @n" }).unwrap();
+        let mut cur = QueryCursor::new();
+        for m in env.matches(&mut cur, &q) { println!("match: {:?}", m); }
+        check_pair(&ctx, lname, &info.language, qsrc, &q, &other, &env, &mut res);
+    }
+    res.violations.iter().map(|v| format!("{}: {}", v.fingerprint, v.what)).collect()
+}
